@@ -313,6 +313,9 @@ def run(tree, rep, tier):
     r2(tree, rep)
     r3(tree, prog, rep)
     r4_r5(tree, rep)
+    from ..tablerules import application_outputs_last
+    application_outputs_last(rep, "C13.R7", prog.machine("SubChannel"),
+                             "the peer is never sent CLOSE (it never sees connectionLost) or the manager never forgets the subchannel id", min_rows=6)
 
 
 MUTANTS = [
@@ -333,3 +336,8 @@ MUTANTS = [
 REWRITES = [
     Rewrite("refusal-pop", INB, "            del self._open_subchannels[scid]", "            self._open_subchannels.pop(scid)", desc="pop instead of del"),
 ]
+MUTANTS.append(Mutant("halfclose-signal-before-close", SUB, "    read_closed.upon(local_close, enter=closed, outputs=[send_close,\n                                                         close_subchannel,\n                                                         # TODO: eventual-signal this?\n                                                         signal_writeConnectionLost,\n                                                         ])",
+                      "    read_closed.upon(local_close, enter=closed, outputs=[signal_writeConnectionLost,\n                                                         send_close,\n                                                         close_subchannel,\n                                                         ])", "C13.R7",
+                      "the application's writeConnectionLost runs before CLOSE is sent: if it raises the peer never sees connectionLost (seed C13-11)"))
+MUTANTS.append(Mutant("halfclose-first-signal-before-close", SUB, "    open_half.upon(local_close, enter=write_closed, outputs=[send_close,\n                                                             signal_writeConnectionLost])",
+                      "    open_half.upon(local_close, enter=write_closed, outputs=[signal_writeConnectionLost,\n                                                             send_close])", "C13.R7", "finding F16 put back"))
